@@ -6,4 +6,6 @@ def main (args : List String) : IO UInt32 := do
   | ["k4", carrier] => Qs.K4.main carrier; return 0
   | ["k1", _] => Qs.K1.main; return 0
   | ["k2", carrier] => Qs.K2.main carrier; return 0
+  | ["k5", carrier] => Qs.K5.main carrier; return 0
+  | ["k6", carrier] => Qs.K6.main carrier; return 0
   | _ => IO.eprintln "usage: qsdriver <harness> <float|rat>"; return 2
